@@ -102,4 +102,18 @@ PROPS = {
              "start states and arguments from the C01 alphabet; then a failure injected into every primitive call (FS method or file method) the chosen path makes; distinct = distinct (helper, subset, state, argument[, fault])",
         level_text="TODO", level_note="TODO", assumptions=[],
     ),
+    "C10": dict(
+        imports="Cache.Cache", check="C10_check", ctype="C10_case",
+        show="let '(src, retained, can_remove, ops, _, _) := c in cruns src (fun n => mem_str n retained) 512 can_remove cinit ops", n=dict(quick=400, thorough=6000), chunk=100,
+        rule="random source trees (files of 0,1,511,512,513,1024,2048,5000 bytes, directories to depth 3), RetainData always/never/by size/by name, cache store mem.FS or an FS exposing only OpenFile+Mkdir; "
+             "random access sequences (Open, Stat, Read of 0..6000 bytes, Seek, paged ReadDir, handle Stat, Close) answered by the cache and by the source directly; source reads counted; distinct = distinct case text",
+        level_text="TODO", level_note="TODO", assumptions=[],
+    ),
+    "C11": dict(
+        imports="Cache.Cache", check="C10_check", ctype="C10_case",
+        show="let '(src, retained, can_remove, ops, _, _) := c in cruns src (fun n => mem_str n retained) 512 can_remove cinit ops", n=dict(quick=400, thorough=4000), chunk=100,
+        rule="for files of 0..5000 bytes at depth 1..3 and both cache store kinds: a fault at every source read index and at every cache-store call (mkdir, create, each write with a partial write, close) of the fill, "
+             "then three fault-free re-opens; plus 2..4 concurrent first opens with the copy paused at chunk boundaries (simultaneous copies counted); distinct = distinct (size, store, fault) cell",
+        level_text="TODO", level_note="TODO", assumptions=[],
+    ),
 }
